@@ -58,8 +58,19 @@ Fixpoint gval_eqb (a b : gval) {struct a} : bool :=
   | _, _ => false
   end.
 
-(* the generator only emits types of the modelled fragment; anything else is skipped (and counted) *)
-Definition in_scope (c : ocall) : bool := forallb (fun p => fields_okK (p_type (op_pass p))) (oc_passes c).
+(* strings that the model's JSON reader reads like encoding/json, should they be given to a slice field *)
+Fixpoint doc_strs_ok (v : jv) : bool :=
+  match v with
+  | JStr s => slice_str_ok s
+  | JArr l => (fix go (l : list jv) := match l with [] => true | x :: r => doc_strs_ok x && go r end) l
+  | JObj o => (fix go (o : list (string * jv)) := match o with [] => true | (_, x) :: r => doc_strs_ok x && go r end) o
+  | _ => true
+  end.
+
+(* the generator only emits types and documents of the modelled fragment; anything else is skipped (and counted) *)
+Definition in_scope (c : ocall) : bool :=
+  forallb (fun p => fields_okK (p_type (op_pass p)) &&
+                    match p_doc (op_pass p) with Some d => doc_strs_ok d | None => true end) (oc_passes c).
 
 Definition case := list ocall.
 
